@@ -164,6 +164,7 @@ class Coll(V):
         self.items = items  # python list of V when concretely known (literal lists)
         self.nodup = nodup if nodup is not None else kind in ("set", "frozenset")
         self.len_z = None  # symbolic length when known although the order/multiplicity is abstracted
+        self.ord = None  # order token (z3 term): the unknown iteration order this collection would be listed in
 
     def __repr__(self):
         return f"Coll({self.kind},{self.esort})"
@@ -452,15 +453,35 @@ def solve(hyps, goal, timeout_ms=None, want_model=True):
         for k in (2, 3):
             m = bounded(k, 6000)
             if m is not None:
-                return "refuted", m, time.time() - t0, ver + "(bounded-universe)"
+                return "refuted-bounded", m, time.time() - t0, ver + "(bounded-universe)"
     s2, r2 = attempt(False, budget)
     if r2 == z3.unsat:
         return "discharged", None, time.time() - t0, ver + "(ematching)"
     if want_model:
         m = bounded(4, 10000)
         if m is not None:
-            return "refuted", m, time.time() - t0, ver + "(bounded-universe)"
+            return "refuted-bounded", m, time.time() - t0, ver + "(bounded-universe)"
     return "unknown", reason, time.time() - t0, ver
+
+
+_hbv_cache = {}
+
+
+def has_bound_var(e):
+    k = e.get_id()
+    hit = _hbv_cache.get(k)
+    if hit is not None:
+        return hit[1]
+    if z3.is_var(e):
+        r = True
+    elif z3.is_quantifier(e):
+        r = False  # closed sub-terms only matter at top level; bodies are handled after instantiation
+    elif z3.is_app(e):
+        r = any(has_bound_var(c) for c in e.children())
+    else:
+        r = False
+    _hbv_cache[k] = (e, r)
+    return r
 
 
 def expand_atoms(f, consts, cache=None, atom_terms=None):
@@ -531,8 +552,20 @@ def expand_atoms(f, consts, cache=None, atom_terms=None):
             r = e.decl()(*ch) if not z3.is_and(e) and not z3.is_or(e) else (z3.And(*ch) if z3.is_and(e) else z3.Or(*ch))
         else:
             r = e
-        if atom_terms is not None and z3.is_app(r) and r.sort() == Atom and not any(r.eq(c) for c in consts):
-            atom_terms[r.get_id()] = r
+        if atom_terms is not None and z3.is_app(r) and not has_bound_var(r):
+            if r.sort() == Atom and not any(r.eq(c) for c in consts):
+                atom_terms[r.get_id()] = r
+            elif isinstance(r.sort(), z3.DatatypeSortRef) and r.sort().num_constructors() == 1:
+                # name-valued components of ground tuple terms must denote names of the bounded universe as well
+                def proj(t):
+                    srt = t.sort()
+                    for i in range(srt.constructor(0).arity()):
+                        comp = srt.accessor(0, i)(t)
+                        if comp.sort() == Atom:
+                            atom_terms[comp.get_id()] = comp
+                        elif isinstance(comp.sort(), z3.DatatypeSortRef) and comp.sort().num_constructors() == 1:
+                            proj(comp)
+                proj(r)
         cache[k] = (e, r)  # keep `e` alive: z3 ast ids are recycled after garbage collection
         return r
 
@@ -634,7 +667,7 @@ class Contract:
     def bind(self, ex, recv, args, kwargs, st):
         fdef, _, _ = ex.src.find(self.file, self.qual)
         env = {}
-        ex.bind_params(fdef.args, [recv] + list(args), kwargs, env, st)
+        ex.bind_params(fdef.args, ([recv] if recv is not None else []) + list(args), kwargs, env, st)
         return env
 
 
@@ -924,6 +957,8 @@ class Executor:
 
     def st_FunctionDef(self, node, st):
         clo = Closure(node, st.env, node.name)
+        if self.contract is not None and self.inline_depth == 0:
+            clo.qual = f"{self.contract.qual}.<locals>.{node.name}"
         for d in reversed(node.decorator_list):
             dv = self.ev(d, st)
             clo = self.call_value(dv, [clo], {}, st, node)
@@ -1745,6 +1780,15 @@ class Executor:
 
     def ex_Subscript(self, node, st):
         o = self.ev(node.value, st)
+        if isinstance(node.slice, ast.Slice):
+            items = o.items if isinstance(o, (TupleV, Coll)) else (val_of(o.z).items if isinstance(o, Scalar) and is_tuple_sort(o.z.sort()) else None)
+            if items is None:
+                raise Unsupported("slice of an abstract sequence")
+            lo = ast.literal_eval(node.slice.lower) if node.slice.lower is not None else None
+            hi = ast.literal_eval(node.slice.upper) if node.slice.upper is not None else None
+            stp = ast.literal_eval(node.slice.step) if node.slice.step is not None else None
+            sub = items[slice(lo, hi, stp)]
+            return TupleV(sub) if isinstance(o, (TupleV, Scalar)) else self.coll_from_items(o.kind, sub)
         k = self.ev(node.slice, st)
         if isinstance(o, DictV):
             kz = z3_of(k)
@@ -1765,42 +1809,80 @@ class Executor:
             return r
         raise Unsupported(f"subscript on {o!r}")
 
+    def ex_Slice(self, node, st):
+        return ("slice", node.lower, node.upper, node.step)
+
     def ex_Lambda(self, node, st):
         return Closure(node, st.env)
 
     def comp_generic(self, node, st, kind):
-        if len(node.generators) != 1:
-            raise Unsupported("nested comprehension")
-        g = node.generators[0]
-        it = self.as_coll(self.ev(g.iter, st), st)
-        if it.items is not None and len(it.items) <= 4 and not g.ifs:
-            items = []
-            for item in it.items:
-                s2 = st  # comprehension scope: bind then evaluate (pure bodies only)
-                saved = dict(st.env)
-                self.assign(g.target, item, s2)
-                items.append(self.ev(node.elt, s2))
-                st.env.clear()
-                st.env.update(saved)
-            return self.coll_from_items(kind, items)
-        if it.mem is None:
-            return Coll(kind, None, None, items=[])
-        x = fresh("c", it.esort)
+        """[elt for t1 in it1 if c1 for t2 in it2(t1) if c2 ...] as {y | exists t1.. : guards and y = elt}.
+        Later iterables/conditions are evaluated under the earlier guards (their obligations need them)."""
+        gens = node.generators
+        if len(gens) == 1:
+            g = gens[0]
+            it0 = self.as_coll(self.ev(g.iter, st), st)
+            if it0.items is not None and len(it0.items) <= 4 and not g.ifs:
+                items = []
+                for item in it0.items:
+                    saved = dict(st.env)
+                    self.assign(g.target, item, st)
+                    items.append(self.ev(node.elt, st))
+                    st.env.clear()
+                    st.env.update(saved)
+                return self.coll_from_items(kind, items)
         saved = dict(st.env)
-        self.assign(g.target, val_of(x), st)
-        conds = [it.mem[x]]
-        for c in g.ifs:
-            conds.append(self.truth_z(st, self.ev(c, st)))
-        e = self.ev(node.elt, st)
-        st.env.clear()
-        st.env.update(saved)
+        mark = len(st.pc)
+        c0 = next(_fresh)
+        conds, bound, nodup_src, ident = [], [], True, None
+        try:
+            for gi, g in enumerate(gens):
+                it = self.as_coll(self.ev(g.iter, st), st)
+                if it.mem is None:
+                    return Coll(kind, None, None, items=[])
+                if is_tuple_sort(it.esort):
+                    ctor = it.esort.constructor(0)
+                    xs = [fresh("cc", ctor.domain(i)) for i in range(ctor.arity())]
+                    x = ctor(*xs)
+                else:
+                    x = fresh("c", it.esort)
+                    xs = [x]
+                bound += xs
+                nodup_src = nodup_src and it.nodup
+                self.assign(g.target, val_of(x), st)
+                guard = it.mem[x]
+                conds.append(guard)
+                st.pc.append(guard)
+                for c in g.ifs:
+                    cz = self.truth_z(st, self.ev(c, st))
+                    conds.append(cz)
+                    st.pc.append(cz)
+                if len(gens) == 1:
+                    ident = x
+            e = self.ev(node.elt, st)
+        finally:
+            added = st.pc[mark:]
+            del st.pc[mark:]
+            st.env.clear()
+            st.env.update(saved)
+        # facts learnt while evaluating under the guards (e.g. callee postconditions) become part of the body
+        extra = [a for a in added if not any(a.eq(c) for c in conds)]
         ez = z3_of(e)
+        body_conds = conds + extra
+        if any(isinstance(c.sort(), z3.ArraySortRef) for f in body_conds + [ez] for c in self.fresh_consts_in(f, c0)
+               if not any(c.eq(b) for b in bound)):
+            raise Unsupported("comprehension body creates per-element fresh collections")
+        more = []
+        for f in body_conds + [ez]:
+            for c in self.fresh_consts_in(f, c0):
+                if not any(c.eq(b) for b in bound + more):
+                    more.append(c)
         y = fresh("y", ez.sort())
-        if ez.eq(x):
-            mem = z3.Lambda([x], z3.And(*conds))
+        if ident is not None and ez.eq(ident) and not more and len(bound) == 1:
+            mem = z3.Lambda([ident], z3.And(*body_conds))
         else:
-            mem = z3.Lambda([y], z3.Exists([x], z3.And(*conds, deq(y, ez))))
-        return Coll(kind, ez.sort(), mem, nodup=(kind != "list") or (it.nodup and ez.eq(x)))
+            mem = z3.Lambda([y], z3.Exists(bound + more, z3.And(*body_conds, deq(y, ez))))
+        return Coll(kind, ez.sort(), mem, nodup=(kind != "list") or (nodup_src and ident is not None and ez.eq(ident)))
 
     def ex_ListComp(self, node, st):
         return self.comp_generic(node, st, "list")
@@ -1850,6 +1932,9 @@ class Executor:
         if isinstance(f, BoundMethod):
             return self.call_method(f.recv, f.name, args, kwargs, st, node)
         if isinstance(f, Closure):
+            q = getattr(f, "qual", None)
+            if q in REGISTRY and REGISTRY[q] is not self.contract:
+                return self.apply_contract(REGISTRY[q], None, args, kwargs, st)
             return self.inline(f, args, kwargs, st)
         if isinstance(f, OpaqueFn):
             return self.call_opaque(f, args, kwargs, st)
@@ -2048,7 +2133,10 @@ class Executor:
             if name in ("list", "tuple") and c.items is not None and len(c.items) <= 1:
                 items = c.items
             nodup = True if name in ("set", "frozenset") else c.nodup
-            return Coll(kind, c.esort, c.mem, items=items, nodup=nodup)
+            r = Coll(kind, c.esort, c.mem, items=items, nodup=nodup)
+            if name in ("list", "tuple", "iter"):
+                r.ord, r.len_z = c.ord, c.len_z
+            return r
         if name == "isinstance":
             return Scalar(z3.BoolVal(self.isinstance_(args[0], node.args[1], st)))
         if name == "len":
@@ -2297,7 +2385,9 @@ class Executor:
                     pf = contract.post(self, s, s.args, self.cold, res)
                     if isinstance(pf, dict):
                         for pname, pform in pf.items():
-                            self.oblige(s, pform, f"post.{pname}")
+                            ob = self.oblige(s, pform, f"post.{pname}")
+                            if ob is not None and pname.startswith("lemma."):
+                                ob.hyps = []  # a lemma about the specification itself: proved from nothing
                     else:
                         self.oblige(s, pf, "post")
                 elif o.kind == "raise":
